@@ -128,8 +128,10 @@ def clip_worlds(tier: str, seed: int) -> list[dict]:
         w["mesh"] = m
         w["enc"] = enc
         out.append(w)
-    for w in out:
+    vias = ["memory", "file", "memory", "emsopen", "dask", "memory"]       # how the dataset being clipped is held (viafile.hold)
+    for k, w in enumerate(out):
         add_clip_vars(w, rng)
+        w["via"] = vias[k % len(vias)]
     return out
 
 
@@ -183,7 +185,8 @@ def attr_list(attrs, encoding=None) -> list:
     for k in ("_FillValue", "missing_value"):
         if encoding and encoding.get(k) is not None and k not in d:
             v = encoding[k]
-            d[k] = str(int(v)) if float(v) == int(float(v)) else str(v)
+            fv = float(v)
+            d[k] = "nan" if fv != fv else (str(int(fv)) if fv == int(fv) else str(v))
     return sorted([k, v] for k, v in d.items())
 
 
@@ -277,7 +280,9 @@ def execute(case: dict) -> dict:
         shutil.rmtree(work)
     work.mkdir(parents=True)
     try:
-        ds1 = W.build(w)
+        from . import viafile
+        held = viafile.hold(w, W.build(w))
+        ds1 = held.ds
         w2 = dict(w)
         w2["vars"] = [dict(v, base=v["base"] + OFFSET2) for v in w["vars"]]
         ds2 = W.build(w2)
@@ -337,6 +342,10 @@ def execute(case: dict) -> dict:
             rec["events"].append(e)
         return rec
     finally:
+        try:
+            held.close()
+        except NameError:
+            pass
         shutil.rmtree(work, ignore_errors=True)
 
 
